@@ -4,9 +4,12 @@ PROP = {
             "malformed ACT / malformed CFG; client type-ahead racing with the trigger, junk in front of the handshake line, the line split "
             "over several reads, the tail of the line and following bytes in one read, bytes after the line, transfer traffic racing with "
             "the flush, end of transfer from either side), first on the unmodified package, then on an overlay build with a seeded "
-            "yield/sleep in front of every atomic, lock, channel and buffer operation of relay.go and buffer.go; no model evaluations: "
-            "the model is tied to the source by the regenerated synchronisation skeleton (skel_matches) and status constants; each run is "
-            "judged by the direct conservation oracle in both directions",
+            "yield/sleep in front of every atomic, lock, channel and buffer operation of relay.go and buffer.go; each run is "
+            "judged by the direct conservation oracle in both directions. Model evaluations (relay_run): one transfer per case driven one "
+            "chunk at a time (all four outcomes, junk before the line, tail of the line and following bytes in one read, transfer traffic, "
+            "end marker or not); the same history is replayed as a label sequence on the extracted model and the logs and final status "
+            "are compared; non-trivial = every case (each contains a handshake). The model is also tied to the source by the "
+            "regenerated synchronisation skeleton (skel_matches) and the status constants",
     "trusted": ["modelled, not verified: the Go memory model is taken as sequentially consistent at the granularity of one atomic/lock/channel/buffer operation; "
                 "channel sends never block (a blocking send only removes schedules); readLine is abstracted to 'consumes some prefix of the parked bytes, "
                 "then accepts, rejects or waits' (its parsing is C03/C16); the detector is an arbitrary per-chunk rewriting (C06); "
